@@ -127,8 +127,26 @@ ReqDeg(T, R, m) == A!LocalDeg(T, m.shape) + A!LocalDeg(R, m.shape) + 2
 HasGrad(s) == s \in {"lagrange1", "lagrange2", "crrt"}
 
 
+\* ---- jump operator  J(u, v) = sum over the selected facets E of int_E [u][v]  (assemble_jump_operator_matrix) ----------------
+\* conforming spaces (and the monomials of SpMonos for the non-conforming one): the jump of a global polynomial vanishes on inner
+\* facets, on a boundary facet [u] = u:  J(u, v) = int over the selected BOUNDARY facets of u v.
+\* disc0 (2D): the interpolant of x^e is the piecewise constant of the cell barycentre values U_c:
+\* J(u, v) = sum_{inner E} |E| (U_c1 - U_c2)(V_c1 - V_c2) + sum_{boundary E} |E| U_c V_c, every selected facet once
+CellBary(e, c) == BaryVal(msh, RangeA(msh.cells[c]), e)
+JumpDisc0(u, v) ==
+  LET nvc == NVC(msh)   dg == TotDeg(u) + TotDeg(v)
+      FS == {geo.fo[cl] : cl \in comp}
+      term(F) == LET ad == SetSeq(geo.adj[F]) IN
+                 IF Len(ad) = 1 THEN CellBary(u, ad[1][1]).n * CellBary(v, ad[1][1]).n
+                 ELSE (CellBary(u, ad[1][1]).n - CellBary(u, ad[2][1]).n) * (CellBary(v, ad[1][1]).n - CellBary(v, ad[2][1]).n)
+      j2(F) == geo.fi[CHOOSE cl \in geo.adj[F] : TRUE].j2
+      rq == SetSeq({j2(F) : F \in FS})
+      grp(r) == LET S == SetSeq({F \in FS : j2(F) = r}) IN SumA([q \in 1..Len(S) |-> term(S[q])])
+  IN [d |-> MeshG(msh) * PowA(nvc * MeshG(msh), dg), t |-> [q \in 1..Len(rq) |-> <<grp(rq[q]), rq[q]>>]]
+
+NoVal == [d |-> 1, t |-> << >>]
 \* one full case: everything assembled with (test T, trial R) on the compiled list
-FullCase(T, R, sl, sup, tab, ftab) ==
+FullCase(T, R, sl, sup, tab, ftab, btab) ==
   LET dim == msh.dim
       pairs == SetSeq(IdPairs(T, R, msh))
       tm == SetSeq(SpMonos(T, msh))
@@ -140,6 +158,13 @@ FullCase(T, R, sl, sup, tab, ftab) ==
       alphas |-> A!Alphas,
       len |-> tab[ZeroE(dim)],
       ids |-> [q \in 1..Len(pairs) |-> [u |-> pairs[q][1], v |-> pairs[q][2], val |-> tab[AddE(pairs[q][1], pairs[q][2])]]],
+      \* jump operators (identical spaces): the jump operator on the compiled list, and the jump stabilisation (gradient jumps),
+      \* which vanishes on every pair of global polynomials of the space if only inner facets are selected
+      jump |-> IF T # R THEN << >>
+               ELSE [q \in 1..Len(pairs) |-> [u |-> pairs[q][1], v |-> pairs[q][2],
+                       val |-> IF ~sup THEN NoVal ELSE IF T = "disc0" THEN JumpDisc0(pairs[q][1], pairs[q][2])
+                               ELSE btab[AddE(pairs[q][1], pairs[q][2])]]],
+      jstabzero |-> T = R /\ HasGrad(T) /\ \A cl \in comp : geo.fo[cl] \in geo.inn,
       \* functional vectors (test space):  f, then per monomial u of the test space  b.u = int f u
       fns |-> [q \in 1..Len(fns) |-> [f |-> fns[q], sum |-> tab[fns[q]],
                  ids |-> LET um == tmd(TotDeg(fns[q])) IN [r \in 1..Len(um) |-> [u |-> um[r], val |-> tab[AddE(fns[q], um[r])]]]]],
@@ -167,7 +192,6 @@ LastOp == IF hist = << >> THEN "none" ELSE hist[Len(hist)].op
 Canonical == ~cleared /\ Len(hist) <= 2 /\ LastOp \in {"compile", "all"} /\ comp # {}
 CaseId == msh.name \o "_v" \o ToString(vk) \o "_h" \o ToString(Len(hist))
 
-NoVal == [d |-> 1, t |-> << >>]
 Emit ==
   hist # << >> =>
     LET sup == SelSupported(geo.fi, comp) IN
@@ -177,7 +201,9 @@ Emit ==
          LET dim == msh.dim
              tab == TLCEval([e \in ExpsUpTo(dim, DMax) |-> IF sup THEN MomVal(msh, geo.fi, geo.ir, comp, e) ELSE NoVal])
              ftab == TLCEval([k \in 1..dim |-> [e \in ExpsUpTo(dim, DMax) |-> IF sup THEN FluxVal(msh, geo.fi, geo.ir, comp, e, k) ELSE NoVal]])
+             bsel == {cl \in comp : geo.fo[cl] \in geo.bnd}
+             btab == TLCEval([e \in ExpsUpTo(dim, DMax) |-> IF sup THEN MomVal(msh, geo.fi, geo.ir, bsel, e) ELSE NoVal])
          IN \A cfg \in SpaceCfgs(dim) : \A sl \in 0..DegSlack :
               PrintT(ToJson([mesh |-> MeshJson, variant |-> vk, hist |-> hist, sel |-> SelSeq]
-                            @@ FullCase(cfg[1], cfg[2], sl, sup, tab, ftab)))
+                            @@ FullCase(cfg[1], cfg[2], sl, sup, tab, ftab, btab)))
 =============================================================================
